@@ -63,6 +63,9 @@ def configs(tier):
         if not es:
             continue
         out.append(dict(family='graph', n=n, edges=[list(e) for e in es], tags=['graph']))
+    # the same graph object, edited between two calls without changing its node and edge counts
+    out.append(dict(family='graph-edited', n=4, edges=[[0, 1], [1, 2], [2, 3]], rewire=[[2, 3], [1, 3]], tags=['graph', 'edited-between-calls']))
+    out.append(dict(family='graph-edited', n=4, edges=[[0, 1], [0, 2], [0, 3]], rewire=[[0, 3], [2, 3]], tags=['graph', 'edited-between-calls']))
     # self-loops: networkx counts a loop twice in the degree, and "degree" is what the helpers are documented to use
     for n, es in ((2, [(0, 1), (0, 0)]), (3, [(0, 1), (1, 2), (1, 1)]), (3, [(0, 1), (1, 2), (2, 2)]), (4, [(0, 1), (1, 2), (2, 3), (0, 0), (3, 3)])):
         out.append(dict(family='graph', n=n, edges=[list(e) for e in es], loops=True, tags=['graph', 'self-loops']))
@@ -160,6 +163,35 @@ def run_path(h, cfg):
         finally:
             eng.div_guard = True
         return {'K': K}
+    if fam == 'graph-edited':
+        G = nx.Graph()
+        G.add_nodes_from(range(cfg['n']))
+        G.add_edges_from([tuple(e) for e in cfg['edges']])
+        for stage in ('first call', 'after the edit'):
+            Pk = h.call_must_succeed('no-exception', an.get_Pk, G)
+            if Pk is None:
+                return None
+            deg = dict(G.degree())
+            hist = {}
+            for v in G:
+                hist[deg[v]] = hist.get(deg[v], 0) + 1
+            if set(Pk) == set(hist) and all(abs(Pk[k] - hist[k] / G.order()) < 1e-12 for k in hist):
+                h.require('Pk=histogram', True)
+            else:
+                h.fail('Pk=histogram', {'stage': stage, 'Pk': {str(k): float(v) for k, v in Pk.items()}, 'histogram': hist})
+                return None
+            st, R0 = h.call(an.estimate_R0, G, transmissibility=Fraction(1, 2))
+            k1 = Fraction(sum(deg.values()), G.order())
+            k2 = Fraction(sum(d * (d - 1) for d in deg.values()), G.order())
+            if st == 'exc' or abs(float(R0) - float(Fraction(1, 2) * k2 / k1)) > 1e-12:
+                h.fail('R0-formula', {'stage': stage, 'got': repr(R0)[:60], 'want': float(Fraction(1, 2) * k2 / k1)})
+                return None
+            h.require('R0-formula', True)
+            if stage == 'first call':
+                (a, b), (c, d) = cfg['rewire']
+                G.remove_edge(a, b)
+                G.add_edge(c, d)
+        return None
     # graphs: get_Pk, get_Pnk, estimate_R0
     G = nx.Graph()
     G.add_nodes_from(range(cfg['n']))
@@ -278,6 +310,29 @@ def replay_concrete(cfg, kind, values, decisions):
                     continue
                 if abs(got - ref(y, d)) > 1e-9 * max(1, abs(got)):
                     det['%s(%s)' % (nm, y)] = [got, float(ref(y, d))]
+        return {'reproduced': bool(det), 'concrete_detail': det}
+    if fam == 'graph-edited':
+        G = nx.Graph()
+        G.add_nodes_from(range(cfg['n']))
+        G.add_edges_from([tuple(e) for e in cfg['edges']])
+        det = {}
+        for stage in ('first call', 'after the edit'):
+            Pk = an.get_Pk(G)
+            deg = dict(G.degree())
+            hist = {}
+            for v in G:
+                hist[deg[v]] = hist.get(deg[v], 0) + 1
+            if set(Pk) != set(hist) or any(abs(Pk[k] - hist[k] / G.order()) > 1e-12 for k in hist):
+                det[stage] = {'Pk': {str(k): float(v) for k, v in Pk.items()}, 'histogram': hist}
+            k1 = sum(deg.values()) / G.order()
+            k2 = sum(d * (d - 1) for d in deg.values()) / G.order()
+            R0 = EoN.estimate_R0(G, transmissibility=0.5)
+            if abs(float(R0) - 0.5 * k2 / k1) > 1e-12:
+                det[stage + ' R0'] = [float(R0), 0.5 * k2 / k1]
+            if stage == 'first call':
+                (a, b), (c, d) = cfg['rewire']
+                G.remove_edge(a, b)
+                G.add_edge(c, d)
         return {'reproduced': bool(det), 'concrete_detail': det}
     G = nx.Graph()
     G.add_nodes_from(range(cfg['n']))
